@@ -4,14 +4,29 @@
    run wrote to its output file. *)
 From WS Require Import Base.Py Base.Str Folding.Model.
 
-(* UnicodeGenerator.__call__: skip whitespace code points *)
+(* UnicodeGenerator.__call__: skip whitespace code points and (fix: surrogates cannot be utf8 encoded) U+D800..U+DFFF *)
+Definition is_surrogate (c : N) : bool := (55296 <=? c)%N && (c <=? 57343)%N.
+Definition skipped (c : N) : bool := is_space c || is_surrogate c.
+(* the loop as written: while the code point is skipped, take the next one *)
+Fixpoint next_char_loop_fuel (fuel : nat) (idx : N) : N * N :=
+  match fuel with
+  | O => (idx, (idx + 1)%N)
+  | S f => if skipped idx then next_char_loop_fuel f (idx + 1)%N else (idx, (idx + 1)%N)
+  end.
+(* the longest run of skipped code points is the 2048 surrogates (at most 11 consecutive whitespace code points
+   exist, U+2000..U+200A); beyond U+10FFFF Python's chr() raises ValueError (more than a million distinct units:
+   outside the model, and an outcome the property allows) *)
+Definition next_char_loop (idx : N) : N * N := next_char_loop_fuel 2064 idx.
+
+(* the same function in closed form (Dpseg.Proofs.next_char_loop_eq): a surrogate index jumps to U+E000, a run of
+   whitespace is walked through; this is the definition the rest of the model and the proofs use *)
 Fixpoint next_char_fuel (fuel : nat) (idx : N) : N * N :=
   match fuel with
   | O => (idx, (idx + 1)%N)
   | S f => if is_space idx then next_char_fuel f (idx + 1)%N else (idx, (idx + 1)%N)
   end.
-(* at most 11 consecutive whitespace code points exist (U+2000..U+200A) *)
-Definition next_char (idx : N) : N * N := next_char_fuel 16 idx.
+Definition next_char (idx : N) : N * N :=
+  next_char_fuel 16 (if is_surrogate idx then 57344%N else idx).
 
 (* {unit: unicode_gen() for unit in units}: [order] enumerates the set of units *)
 Fixpoint build_mapping (order : list str) (idx : N) : list (str * N) :=
